@@ -214,7 +214,7 @@ pub enum PeerIdStatusFull { New, InUse, InUsePendingNewConnectionId, PendingReti
 pub struct PeerIdInfoTx { pub sequence_number: u32, pub status: PeerIdStatusFull }
 pub struct PeerIdRegistryTx { pub transmission_interest: MemoX, pub ack_interest: MemoX, pub retire_prior_to: u32 }
 impl PeerIdRegistryTx {
-    fn on_transmit_loop_body(&mut self, id_info: &mut PeerIdInfoTx, context: &mut WriteContextX)
+    fn peer_on_transmit_loop_body(&mut self, id_info: &mut PeerIdInfoTx, context: &mut WriteContextX)
         requires
             // established by the dropped header: transmission_interest() != None <=> PendingRetirement / ..Retransmission
             old(id_info).status is PendingRetirement || old(id_info).status is PendingRetirementRetransmission,
